@@ -192,6 +192,10 @@ def gen_inputs(ntr, sd, big):
                              "lines": _rand_comp(rng, n, 60), "circ": fmt == "ig" and rng.random() < 0.5,
                              "terOwn": fmt == "ig" and rng.random() < 0.3, "nl": rng.random() < 0.7,
                              "title": list(rng.choice(titles)) if fmt == "ig" else []})
+                # the comment text is part of the abstract input: TLC reads the alphabet from it (HdrKind), the record's kind is not believed
+                words = [rng.choice(u.HDR_WORDS) for _ in range(rng.randint(0, 3))]
+                words.insert(rng.randint(0, len(words)), rng.choice([kind, kind + ",", "(" + kind + ")", "my" + kind]))
+                inps[-1]["hdr"] = list(" ".join(words))
         elif r == 3:
             inps.append({"fam": "seqlist", "blocks": [{"name": rng.choice(names_pool), "cnt": rng.randint(1, 40)}
                                                       for _ in range(rng.randint(1, 8))]})
